@@ -762,7 +762,7 @@ func Generate(r *rand.Rand, profile string, concurrent bool, av Avoid) *Plan {
 		if p.Cfg.UMs == 0 || p.Cfg.UCalls == 0 {
 			p.Cfg.UMs, p.Cfg.UCalls = uint32(10*(1+r.IntN(5))), uint32(1+r.IntN(2))
 		}
-		size := 2 + r.IntN(3)
+		size := 1 + r.IntN(4) // (a pool of one too: every channel of the pool has been through it then)
 		p.Cfg.Min, p.Cfg.Max = uint32(size), uint32(size)
 		k := r.IntN(nKeys)
 		n := int(p.Cfg.UCalls)
